@@ -1,0 +1,72 @@
+//go:build verif
+
+// Contracts for the govc verifier (comment-only; see /verif/DESIGN.md).
+// This file contains no code. It is read as text by /verif/bin/govc.
+
+package token
+
+//@ default mode int
+
+//@ func unhex
+//@   prop C11
+//@   pure
+//@   ensures -1 <= result && result <= 15
+
+//@ func hasPrefix
+//@   prop C11
+//@   pure
+//@   ensures implies(result, len(a) >= len(s))
+//@   loop 1 invariant -1 <= rangeindex && rangeindex <= len(a) && len(a) == len(s)
+//@   loop 1 decreases len(a) - rangeindex
+
+//@ func checkNumericUnderscores
+//@   prop C11
+//@   pure
+//@   loop 1 invariant -1 <= rangeindex && rangeindex <= len(a)
+//@   loop 1 decreases len(a) - rangeindex
+
+// Unescape: every s[i+k] is guarded by the matching length test; both loops
+// advance i; nothing is written outside freshly allocated memory.
+//@ func Unescape
+//@   prop C11
+//@   wraps shl
+//@   loop 1 invariant 0 <= i && i <= len(s)
+//@   loop 1 decreases len(s) - i
+//@   loop 2 invariant 0 <= i && i <= len(s) && (isnil(base(b)) || fresh(base(b)))
+//@   loop 2 decreases len(s) - i
+
+// mapOK: the table of user-defined tokens never exceeds the ID space.
+//@ spec mapOK(m *Map) bool = m != nil && len(m.byID) <= 1048576
+
+//@ func (*Map).Insert
+//@   prop C11
+//@   requires mapOK(m)
+//@   ensures mapOK(m) && (base(m.byID) == old(base(m.byID)) || fresh(base(m.byID)))
+//@   modifies m.byName, m.byID, mem(m.byID)
+
+//@ func (*Map).ByID
+//@   prop C11
+//@   pure
+
+// Tokenize: for every source text, no index or slice is out of range and every
+// loop makes progress: the main loop on len(src) - i (each path consumes at
+// least one byte), the inner scans on len(src) - j, the comment padding loop
+// on line - len(comments).
+//@ func Tokenize
+//@   prop C11
+//@   requires mapOK(m)
+//@   modifies m.byName, m.byID, mem(m.byID)
+//@   loop 1 invariant 0 <= i && i <= len(src) && mapOK(m) && 1 <= line && line <= 1048575 && len(tokens) >= 0 && (isnil(base(comments)) || fresh(base(comments))) && (isnil(base(tokens)) || fresh(base(tokens))) && (base(m.byID) == old(base(m.byID)) || fresh(base(m.byID)))
+//@   loop 1 decreases len(src) - i
+//@   loop 2 invariant i < j && j <= len(src) && 0 <= i && mapOK(m) && 1 <= line && line <= 1048575 && (isnil(base(comments)) || fresh(base(comments))) && (isnil(base(tokens)) || fresh(base(tokens))) && (base(m.byID) == old(base(m.byID)) || fresh(base(m.byID)))
+//@   loop 2 decreases len(src) - j
+//@   loop 3 invariant i < j && j <= len(src) && 0 <= i && mapOK(m) && 1 <= line && line <= 1048575 && j - i <= 1023 && (isnil(base(comments)) || fresh(base(comments))) && (isnil(base(tokens)) || fresh(base(tokens))) && (base(m.byID) == old(base(m.byID)) || fresh(base(m.byID)))
+//@   loop 3 decreases len(src) - j
+//@   loop 4 invariant i < j && j <= len(src) && 0 <= i && mapOK(m) && 1 <= line && line <= 1048575 && j - i <= 1023 && (isnil(base(comments)) || fresh(base(comments))) && (isnil(base(tokens)) || fresh(base(tokens))) && (base(m.byID) == old(base(m.byID)) || fresh(base(m.byID)))
+//@   loop 4 decreases len(src) - j
+//@   loop 5 invariant 0 <= h && h < i && i <= len(src) && mapOK(m) && 1 <= line && line <= 1048575 && (isnil(base(comments)) || fresh(base(comments))) && (isnil(base(tokens)) || fresh(base(tokens))) && (base(m.byID) == old(base(m.byID)) || fresh(base(m.byID)))
+//@   loop 5 decreases len(src) - i
+//@   loop 6 invariant 0 <= h && h < i && i <= len(src) && mapOK(m) && 1 <= line && line <= 1048575 && (isnil(base(comments)) || fresh(base(comments))) && (isnil(base(tokens)) || fresh(base(tokens))) && (base(m.byID) == old(base(m.byID)) || fresh(base(m.byID)))
+//@   loop 6 decreases int(line) - int(uint32(len(comments)))
+//@   loop 7 invariant 0 <= i && i < len(src) && -1 <= rangeindex && mapOK(m) && 1 <= line && line <= 1048575 && (isnil(base(comments)) || fresh(base(comments))) && (isnil(base(tokens)) || fresh(base(tokens))) && rangeindex <= len(lexers[c]) && (base(m.byID) == old(base(m.byID)) || fresh(base(m.byID)))
+//@   loop 7 decreases len(lexers[c]) - rangeindex
